@@ -561,6 +561,8 @@ func replacementNodes(self *mcbor.Node) []*mcbor.Node {
 		mcbor.B(nil), mcbor.B([]byte{0}), mcbor.T(""), mcbor.T("a"), mcbor.A(), mcbor.A(mcbor.Null()), mcbor.M(), mcbor.M(mcbor.U(0), mcbor.Null()),
 		mcbor.Tg(0, self.Clone()), mcbor.Tg(18, self.Clone()), mcbor.B(mcbor.Encode(self)), mcbor.A(self.Clone()), mcbor.RawBytes([]byte{0xff}), mcbor.S(255),
 		mcbor.T("https://:8443/v1"), mcbor.T("http://\u023a\u023a\u023a/"), mcbor.T("HTTP://\u023a\u023e./\u0130"),
+		// texts that end up in labels and messages: more than 64 bytes in 40 characters, printf verbs
+		mcbor.T(oddCompTexts[2]), mcbor.T(oddCompTexts[0]),
 	}
 }
 
@@ -662,7 +664,8 @@ func jsonSites(v any, prefix []string, out *[][]string) {
 	}
 }
 
-var jsonRepl = []string{`null`, `true`, `0`, `-1`, `1.5`, `1e400`, `18446744073709551616`, `""`, `"a"`, `"AQ"`, `[]`, `[null]`, `{}`, `{"a":null}`, `"\ud800"`, `[[[[[]]]]]`, `"https://:8443/v1"`, `"http://\u023a\u023a\u023a/"`, `1e1000000`, `-1E-1000000`, `0.1e1000001`}
+var jsonRepl = []string{`null`, `true`, `0`, `-1`, `1.5`, `1e400`, `18446744073709551616`, `""`, `"a"`, `"AQ"`, `[]`, `[null]`, `{}`, `{"a":null}`, `"\ud800"`, `[[[[[]]]]]`, `"https://:8443/v1"`, `"http://\u023a\u023a\u023a/"`, `1e1000000`, `-1E-1000000`, `0.1e1000001`,
+	`"éééééééééééééééééééééééééééééééééééééééé"`, `"100%s signed %d"`}
 
 // jsonMutate renders doc with the value at path replaced (mode 0), deleted (1) or its member duplicated (2).
 func jsonMutate(v any, path []string, mode, repl int) []byte {
